@@ -9,7 +9,7 @@ COQ_CASE_TYPE = "case04"
 SHARD = 60
 RULE = ("systematic: every one of the 32 request methods called on an object that is (a) never connected, (b) connected and latched by each error kind "
         "(timeout, unexpected reply, device error line, USB exception, unsupported firmware, failed handshake, no device), (c) disconnected after an error, "
-        "(d) reconnected while latched, (e) closed by disconnect / reboot / bootload, with and without the port's close() raising, then reconnected; plus random histories of up to 12 calls against a conforming-device script with one disturbance "
+        "(d) reconnected while latched, (d') public record_error calls with empty / blank / ordinary first messages followed by further errors (judged by the harness on the err text),  (e) closed by disconnect / reboot / bootload, with and without the port's close() raising, then reconnected; plus random histories of up to 12 calls against a conforming-device script with one disturbance "
         "(fault / 26 empty reads / error line / wrong-name line / extra empties) at a random I/O position; the fake port records every write; "
         "non-trivial = history in which an error is recorded before the last call")
 TRUSTED = ["pyserial behaviour = fake port: write/readline succeed, return b'' on timeout, or raise SerialException", "error kinds are recognised by message prefix"]
@@ -80,6 +80,11 @@ def generate(rng, tier):
                         calls += [("connect", S.GOOD_PORTS, None), S.random_call(rng)]
                     cases.append({"calls": calls, "events": ev, "close_raises": close_raises,
                                   "family": "closed:%s%s/%s" % (closer[0], "+close-fault" if close_raises else "", m)})
+    # record_error is public: the first recorded message (whatever text it is, the empty string included) stays, later ones are dropped;
+    # judged by the harness itself on the err attribute (the model records error kinds, not texts)
+    for first in ["", " ", "0", "USB cable fault", "None"]:
+        for later in (["again"], ["", "x"], ["reconnect-old"], ["reconnect-none"], ["x", "reconnect-old", "y"]):
+            cases.append({"rec": [first] + later, "calls": [], "events": [], "family": "record_error/%r" % first})
     n = 250 if tier == "quick" else 15000
     for _ in range(n):
         calls = [("connect", S.GOOD_PORTS, rng.choice([None, None, "Bot", "/dev/ttyACM0"]))]
@@ -92,10 +97,38 @@ def generate(rng, tier):
         cases.append({"calls": calls, "events": sum(parts, []), "family": "history/%s" % dist.split("@")[0]})
     return cases
 
+def _run_record(c):
+    """a connected object; record_error(first); then further record_error calls / failing reconnects: err must stay the first message"""
+    script = S.Script(S.connect_script() + ["E", "E", ("L", "EBBv13_and_above EB Firmware Version 2.8.1")] * 3)
+    fp = S.install(script, S.GOOD_PORTS)
+    try:
+        obj = S.ebb3_motion.EBBMotionWrap()
+        if not obj.connect(): return {"rec_ok": False, "why": "could not connect"}
+        first = c["rec"][0]
+        obj.record_error(first)
+        for step in c["rec"][1:]:
+            if step == "reconnect-old": obj.disconnect(); obj.connect()
+            elif step == "reconnect-none":
+                obj.disconnect(); S.ebb3_serial.comports = lambda: []; obj.connect(); S.ebb3_serial.comports = lambda: list(S.GOOD_PORTS)
+            else: obj.record_error(step)
+            if obj.err != first:
+                return {"rec_ok": False, "why": "after %r the recorded message is %r, the first recorded was %r" % (step, obj.err, first)}
+            before = len(fp.writes)
+            if obj.command("SM,10,1,1") is not False or len(fp.writes) != before:
+                return {"rec_ok": False, "why": "a request was transmitted / succeeded with the message %r recorded" % (obj.err,)}
+        return {"rec_ok": True}
+    finally:
+        S.uninstall()
+
 def run_impl(c):
+    if "rec" in c:
+        return _run_record(c)
     return {"obs": S.jsonable_obs(S.run_history(c["calls"], c["events"], c.get("close_raises", False)))}
 
 def coq_case(c, r):
+    if "rec" in c:
+        if r.get("rec_ok"): return "(K04 %s [] [] [])" % S.coq_cfg(*CFG)
+        return "(K04 %s [] [(CStatus, mkobs true RNone [] None false None 0%%nat)] [])" % S.coq_cfg(*CFG)
     if "raise" in r or any(o["raised"] == "RecordedErrorErased" for o in r["obs"]):
         # the harness could not run the history, or an error that was recorded during a call had vanished when the call returned
         # ("the recorded message is never replaced" - nor dropped): no reading of the observations can satisfy the property
@@ -105,14 +138,17 @@ def coq_case(c, r):
                                   clist([cb(bool(o.get("read_err"))) for o in r["obs"]]))
 
 def nontrivial(c, r):
+    if "rec" in c: return len(c["rec"]) >= 3
     obs = r.get("obs", [])
     return any(o["err"] is not None for o in obs[:-1])
 
 def explain(c, r):
+    if "rec" in c: return {"record_error_then": c["rec"], "result": r}
     return {"port_close_raises": c.get("close_raises", False), "calls": [list(map(str, x)) for x in c["calls"]], "script": [e if isinstance(e, str) else e[1] for e in c["events"]][:80],
             "observed": [{k: o[k] for k in ("raised", "ret", "writes", "err", "port", "consumed")} for o in r.get("obs", [])]}
 
 def shrink(c):
+    if "rec" in c: return
     calls = c["calls"]
     for i in range(len(calls) - 1, 0, -1):
         yield dict(c, calls=calls[:i] + calls[i + 1:])
